@@ -10,6 +10,7 @@ PLAN = dict(
           "bit of small serialized files (thorough: also every deletion and truncation, 18 base files). Oracle (metamorphic): the untampered base verifies; "
           "if ReadExchange+Verify succeed then canon(version,URL,method,request headers,status,response headers)==signed, returned payload==signed payload, "
           "t inside the signed window, an accepted Signature item carries the signed date/expires and SHA-256 of the fetched leaf, fetched leaf key == signer key. "
+          "Sub-check sigalg (signingalgorithm signer / verifier called directly): 1200 signatures per fixture key (P-256 / P-384), each must verify under crypto/ecdsa with the hash the spec fixes AND under the verifier; edited signatures (message bit, signature bit, trailing octet, r+n, swapped r/s, long-form length, superfluous leading zero, another key) must not verify. "
           "Non-trivial: a mutation that changes signed content / a signed parameter / the key / the instant (everything except class none, benign label/"
           "cert-url/high-S/duplicate edits); distinct by case fingerprint."),
     assumptions=TRUSTED + ["collision resistance of SHA-256 and unforgeability of ECDSA (the search looks for logic errors)",
